@@ -96,7 +96,8 @@ def run(tier):
         b = int(rng.randint(a, min(a + 5, 5) + 1))
         prob = dp.gen_problem(rng, rows=win + int(rng.randint(0, 3)), cols=win + int(rng.randint(1, 6)), win=win, s=s,
                               measure=measure, disp=(a, b), mask_mode=["left", "right", "both", "both"][k % 4],
-                              grid=(k % 5 == 0))
+                              grid=(k % 5 == 0),
+                              conv=None if k % 3 else (dp.CONVENTIONS[(k // 3) % 5], dp.CONVENTIONS[(k // 3 + 1 + k % 2) % 5]))
         n += 1
         cid = f"m{n}"
         chk.count(("mc", measure, win, s, a, b, k % 4, prob["rows"], prob["cols"]))
@@ -117,7 +118,8 @@ def run(tier):
         inv_num = float("nan") if info["inv"] == "NaN" else float(info["inv"])
         prob = dp.gen_problem(rng, rows=win + 3 + int(rng.randint(0, 3)), cols=win + 6 + int(rng.randint(0, 5)), win=win, s=s,
                               measure=info["measure"], disp=(a, b), vmax=3 if info["measure"] != "zncc" else 2,
-                              mask_mode=["none", "left", "right", "both"][k % 4])
+                              mask_mode=["none", "left", "right", "both"][k % 4],
+                              conv=None if k % 3 else (dp.CONVENTIONS[(k // 3) % 5], dp.CONVENTIONS[(k // 3 + 1 + k % 2) % 5]))
         left, right = dp.make_datasets(prob)
         cfg = {"pipeline": {name: dict(c) for name, c in steps}}
         names = [nm for nm, _ in steps]
